@@ -170,14 +170,24 @@ pub fn mod_n_from_hash(ha: &[u8]) -> U256 {
 
     let (sum1, carry1) = r[4].overflowing_add(z[3]);
     r[4] = sum1;
-    let t = z[4] + carry1 as u64;
-    let (sum2, carry2) = r[5].overflowing_add(t);
+    let (sum2, carry2) = r[5].overflowing_add(z[4]);
+    let (sum2, carry3) = sum2.overflowing_add(carry1 as u64);
     r[5] = sum2;
-    r[6] = u64::from(carry2);
+    r[6] = u64::from(carry2) + u64::from(carry3);
 
     r = u256_mul(&[r[5], r[6], 0, 0], &SM9_N_MINUS_ONE);
-    h = u256_sub(&[z[0], z[1], z[2], z[3]], &[r[0], r[1], r[2], r[3]]).0;
-    h = mod_n_add(&h, &SM9_ONE);
+    // The quotient estimate q satisfies q <= floor(Ha / (N-1)) <= q + 2, so Ha - q*(N-1) needs a
+    // fifth limb and up to two more subtractions of N-1.
+    let (diff, borrow) = u256_sub(&[z[0], z[1], z[2], z[3]], &[r[0], r[1], r[2], r[3]]);
+    h = diff;
+    let mut h4 = z[4].wrapping_sub(r[4]).wrapping_sub(borrow as u64);
+    while h4 != 0 || u256_cmp(&h, &SM9_N_MINUS_ONE) >= 0 {
+        let (d, b) = u256_sub(&h, &SM9_N_MINUS_ONE);
+        h = d;
+        h4 = h4.wrapping_sub(b as u64);
+    }
+    // h is now Ha mod (N-1), in [0, N-2]
+    h = u256_add(&h, &SM9_ONE).0;
     h
 }
 
